@@ -409,6 +409,7 @@ type stepCtx struct {
 	context.Context
 	polls, limit int
 	closed       chan struct{}
+	closedAt     time.Time // when Done() first returned the closed channel
 }
 
 func newStepCtx(parent context.Context, limit int) *stepCtx {
@@ -420,6 +421,9 @@ func newStepCtx(parent context.Context, limit int) *stepCtx {
 func (c *stepCtx) Done() <-chan struct{} {
 	c.polls++
 	if c.polls > c.limit {
+		if c.closedAt.IsZero() {
+			c.closedAt = time.Now()
+		}
 		return c.closed
 	}
 	return c.Context.Done()
